@@ -114,7 +114,7 @@ class Optimizer(object):
             if len(gate_list[0][1]) == 1: # check if the current element is a 1q gate
                 qubit = gate_list[0][1]
                 c = 1
-                while len(gate_list[c][1]) == 1 and qubit == gate_list[c][1]: # count how many successive gate have the same qubit
+                while c < len(gate_list) and len(gate_list[c][1]) == 1 and qubit == gate_list[c][1]: # count how many successive gate have the same qubit
                     c += 1
                 if c > 1:
                     gates = []
